@@ -22,7 +22,7 @@ func init() {
 		Rule:        "(1) the C01/C02/C03/C13 history profiles run through external.Open against the real server (internal/app: interceptors, streaming) on a loopback port and compared step by step, with probes after every step, with the same reference model the inline client is compared with (values and sentinel classes; content lengths across the 2048-byte chunk boundary; empty key, missing key, ended transaction, conflict; all four levels); (2) error mapping round trip ClientError(Error(wrap(e))) for every wire sentinel e and a foreign error over a generated family of wrappings (%w nesting depth 0-4, errors.Join with foreign errors, custom Unwrap), exhaustive over the family: errors.Is must hold for e and for no other sentinel; (3) server side rejections of streamed writes must surface from Set, SetReader and File.Close. evaluations = calls compared + mapping cases; distinct_nontrivial = distinct (operation, actor kind, result class) tuples seen through the gRPC client + distinct mapping (sentinel, wrapping shape) cases",
 		Assumptions: []string{"reference model refmodel", "loopback TCP"},
 		Roles: map[string]Role{
-			"hist":    {N: func(t string) int { return tierN(t, 144, 2000) }, Case: c11HistCase},
+			"hist":    {N: func(t string) int { return tierN(t, 144, 6000) }, Case: c11HistCase},
 			"mapping": {N: func(t string) int { return 1 }, Case: c11MappingCase},
 			"reject":  {N: func(t string) int { return tierN(t, 4, 16) }, Case: c11RejectCase},
 		},
